@@ -292,6 +292,10 @@ def St.init {α : Type} (name : Bytes) (isConnect : Bool) : St α :=
 
 def is1xx (s : Nat) : Bool := 100 ≤ s && s ≤ 199
 
+/-- net/http (server.go `WriteHeader`): 1xx other than 101 Switching Protocols is sent as an informational
+    response and does not fix the final header -/
+def isInformational (s : Nat) : Bool := is1xx s && s != 101
+
 section
 variable {α : Type}
 
@@ -303,7 +307,7 @@ def fixSent (status : Nat) (h : Hdr) : Option (Nat × Hdr) → Option (Nat × Hd
 
 def dsWriteHeader (st : St α) (s : Nat) : St α :=
   { st with log := .wh s st.hdr :: st.log,
-            sent := if is1xx s then st.sent else fixSent s st.hdr st.sent }
+            sent := if isInformational s then st.sent else fixSent s st.hdr st.sent }
 
 /-- net/http sends `200` with the current header map when a body byte or a flush arrives first -/
 def implicitHeader (st : St α) : St α := { st with sent := fixSent 200 st.hdr st.sent }
